@@ -18,12 +18,14 @@ class RequirementsTxtWriter(DependencyWriter):
             return None
 
         original_lines = lines.copy()
+        # the file is read and written without newline translation: keep its line ending
+        eol = "\r\n" if original_lines[-1].endswith("\r\n") else "\n"
         if not original_lines[-1].endswith("\n"):
-            original_lines[-1] += "\n"
+            original_lines[-1] += eol
 
         requirement_lines = []
         for dep in dependencies:
-            requirement_lines.append(f"{dep.requirement}\n")
+            requirement_lines.append(f"{dep.requirement}{eol}")
 
         updated_lines = original_lines + requirement_lines
 
@@ -31,7 +33,7 @@ class RequirementsTxtWriter(DependencyWriter):
 
         if not dry_run:
             try:
-                with open(self.path, "w", encoding="utf-8") as f:
+                with open(self.path, "w", encoding="utf-8", newline="") as f:
                     f.writelines(updated_lines)
             except Exception:
                 return None
@@ -47,7 +49,7 @@ class RequirementsTxtWriter(DependencyWriter):
 
     def _parse_file(self) -> Optional[list[str]]:
         try:
-            with open(self.path, "r", encoding="utf-8") as f:
+            with open(self.path, "r", encoding="utf-8", newline="") as f:
                 return f.readlines()
         except Exception:
             return None
